@@ -361,6 +361,9 @@ type goField struct {
 	// EmbPtr: the embedded struct is embedded through a POINTER (`struct{ *Inner; ... }`); the NBT side is the same as
 	// for a value-embedded struct (the generator always gives it a pointee)
 	EmbPtr bool `json:"embptr,omitempty"`
+	// NbtKey: the name is given by the `nbtkey:"..."` tag (made for names a `nbt:"..."` tag cannot carry), options stay
+	// in the nbt tag; for the mapping it is a name from a tag like any other
+	NbtKey bool `json:"nbtkey,omitempty"`
 }
 
 type goType struct {
@@ -469,6 +472,9 @@ func (t *goType) reflectType() reflect.Type {
 				if opts := strings.TrimPrefix(tag, sf.Name); opts != "" {
 					sf.Tag = reflect.StructTag(`nbt:` + fmt.Sprintf("%q", opts)) // options only: `nbt:",omitempty"`
 				}
+			} else if f.NbtKey && !f.Skip {
+				name := string(bytesOf(f.Name))
+				sf.Tag = reflect.StructTag(`nbt:` + fmt.Sprintf("%q", strings.TrimPrefix(tag, name)) + ` nbtkey:` + fmt.Sprintf("%q", name))
 			} else {
 				sf.Tag = reflect.StructTag(`nbt:` + fmt.Sprintf("%q", tag))
 			}
@@ -721,6 +727,7 @@ func randGoType(rng *rand.Rand, depth int) *goType {
 			f := goField{Name: name, Ty: randGoType(rng, depth-1)}
 			f.Omit = rng.Intn(4) == 0
 			f.Skip = rng.Intn(12) == 0
+			f.NbtKey = rng.Intn(6) == 0
 			if (f.Ty.K == "slice" || f.Ty.K == "array") && rng.Intn(2) == 0 {
 				switch f.Ty.E.K {
 				case "bool", "i8", "u8", "i32", "u32", "i64", "u64":
@@ -934,7 +941,7 @@ func randConflictStruct(rng *rand.Rand) *goType {
 	emb := func(fs ...goField) goField {
 		return goField{Name: []int{}, Ty: &goType{K: "struct", Fs: fs}, Emb: true}
 	}
-	tagged := func(zero bool) goField { return goField{Name: id, Ty: sc(), Zero: zero} }
+	tagged := func(zero bool) goField { return goField{Name: id, Ty: sc(), Zero: zero, NbtKey: rng.Intn(2) == 0} }
 	untagged := func(zero bool) goField { return goField{Name: id, Ty: sc(), Ut: true, Zero: zero} }
 	t := &goType{K: "struct"}
 	switch rng.Intn(8) {
